@@ -8,6 +8,11 @@ import IwModel.Lemmas.Avl
 import IwModel.Lemmas.HMapRef
 import IwModel.Lemmas.Arr
 import IwModel.Lemmas.Ring
+import IwModel.Lemmas.RingRef
+import IwModel.Lemmas.Sort
+import IwModel.Lemmas.XStrMem
+import IwModel.Lemmas.PoolSplit
+import IwModel.Lemmas.Owned
 /-!
 C18: containers behave as their plain reference models for every call sequence.
 
@@ -307,6 +312,59 @@ theorem plist_handed_out (l : PList α) (wf : l.Wf) (i : Nat) :
 example : (ulRun (0 : Nat) [.push 1, .unshift 2, .insert 1 3, .remove 0] (UList.create 0 2)).map (·.window) = some [3, 1] := by
   decide
 
+/-- `iwulist_sort` with a total, transitive comparator: the live window becomes a **sorted permutation** of
+itself; `start`, `num`, the allocation size and every cell outside the window are untouched -/
+theorem ulist_sort_sorted_perm (le : α → α → Bool) (h : TotalPreorder le) (l : UList α) (wf : l.Wf) :
+    (l.sort le).Wf ∧ (l.sort le).start = l.start ∧ (l.sort le).num = l.num ∧ (l.sort le).anum = l.anum ∧
+    (l.sort le).window.Pairwise (fun a b => le a b = true) ∧ (l.sort le).window.Perm l.window ∧
+    (l.sort le).arr.take l.start = l.arr.take l.start ∧
+    (l.sort le).arr.drop (l.start + l.num) = l.arr.drop (l.start + l.num) := by
+  have hl := UList.window_length l wf
+  have hw : (UList.sortList le l.window).length = l.num := by rw [(sortList_perm le _).length_eq, hl]
+  obtain ⟨s1, s2, s3, s4⟩ := splice_window l.arr l.start l.num _ wf.1 hw
+  have ew : (l.sort le).window = UList.sortList le l.window := s1
+  refine ⟨⟨?_, ?_⟩, rfl, rfl, s2, ?_, ?_, s3, s4⟩
+  · show l.start + l.num ≤ (l.arr.take l.start ++ UList.sortList le l.window ++ l.arr.drop (l.start + l.num)).length
+    rw [s2]; exact wf.1
+  · show 0 < (l.arr.take l.start ++ UList.sortList le l.window ++ l.arr.drop (l.start + l.num)).length
+    rw [s2]; exact wf.2
+  · rw [ew]; exact sortList_sorted h _
+  · rw [ew]; exact sortList_perm le _
+
+/-- `iwlist_sort`: same statement for the list of owned items (the items themselves are only permuted: none
+is freed, copied or lost) -/
+theorem plist_sort_sorted_perm (le : α → α → Bool) (h : TotalPreorder le) (l : PList α) (wf : l.Wf) :
+    (l.sort le).Wf ∧ (l.sort le).start = l.start ∧ (l.sort le).num = l.num ∧ (l.sort le).anum = l.anum ∧
+    (l.sort le).window.Pairwise (fun a b => le a b = true) ∧ (l.sort le).window.Perm l.window ∧
+    (l.sort le).arr.take l.start = l.arr.take l.start ∧
+    (l.sort le).arr.drop (l.start + l.num) = l.arr.drop (l.start + l.num) := by
+  have hl := PList.window_length l wf
+  have hw : (UList.sortList le l.window).length = l.num := by rw [(sortList_perm le _).length_eq, hl]
+  obtain ⟨s1, s2, s3, s4⟩ := splice_window l.arr l.start l.num _ wf.1 hw
+  have ew : (l.sort le).window = UList.sortList le l.window := s1
+  refine ⟨⟨?_, ?_⟩, rfl, rfl, s2, ?_, ?_, s3, s4⟩
+  · show l.start + l.num ≤ (l.arr.take l.start ++ UList.sortList le l.window ++ l.arr.drop (l.start + l.num)).length
+    rw [s2]; exact wf.1
+  · show 0 < (l.arr.take l.start ++ UList.sortList le l.window ++ l.arr.drop (l.start + l.num)).length
+    rw [s2]; exact wf.2
+  · rw [ew]; exact sortList_sorted h _
+  · rw [ew]; exact sortList_perm le _
+
+/-- the code of `sort_r` (libc's `qsort_r`) is not modelled; this is why that loses nothing: with an
+antisymmetric comparator **any** sorted permutation of the window is the one the model computes, and the
+byte-string comparator of the tie (`memcmp`, shorter first) is total, transitive and antisymmetric -/
+theorem sort_result_unique (le : α → α → Bool) (h : TotalPreorder le)
+    (anti : ∀ a b, le a b = true → le b a = true → a = b) (l : UList α) (p : PList α) (wl : l.Wf) (wp : p.Wf)
+    (w : List α) (hs : w.Pairwise (fun a b => le a b = true)) :
+    (w.Perm l.window → (l.sort le).window = w) ∧ (w.Perm p.window → (p.sort le).window = w) ∧
+    TotalPreorder UList.bytesLe ∧ (∀ a b, UList.bytesLe a b = true → UList.bytesLe b a = true → a = b) := by
+  obtain ⟨_, _, _, _, a1, a2, _⟩ := ulist_sort_sorted_perm le h l wl
+  obtain ⟨_, _, _, _, b1, b2, _⟩ := plist_sort_sorted_perm le h p wp
+  exact ⟨fun pw => sorted_perm_unique anti _ _ a1 hs (a2.trans pw.symm),
+         fun pw => sorted_perm_unique anti _ _ b1 hs (b2.trans pw.symm), bytesLe_preorder, bytesLe_antisymm⟩
+
+example : ((UList.mk [9, 3, 1, 2, 9] 1 3).sort (fun a b => decide (a ≤ b))).arr = [9, 1, 2, 3, 9] := by decide
+
 end LISTS
 
 /-! ## Sorted-array helpers (`iwarr_sorted_*`): reference = non-decreasing list -/
@@ -413,6 +471,132 @@ theorem ring_last_n (junk : α) (len : Nat) (hlen : 1 ≤ len) (xs : List α) :
 
 example : iterAll ([1, 2, 3, 4].foldl put (create 0 3)) = [4, 3, 2] := by decide
 
+/-- calls of the ring API that change the ring -/
+inductive RbOp (α : Type) where
+  | put (x : α) | back | clear
+
+def rbStep (r : Ring.Ring α) : RbOp α → Ring.Ring α
+  | .put x => put r x
+  | .back => back r
+  | .clear => clear r
+
+/-- the plain two-list reference (`Ring.RRef`): cells before the cursor, cells after it -/
+def rbRef (L : Nat) (s : RRef α) : RbOp α → RRef α
+  | .put x => s.put L x
+  | .back => s.back
+  | .clear => s.clear
+
+theorem ring_rep (junk : α) (len : Nat) (hlen : 1 ≤ len) (ops : List (RbOp α)) :
+    Rep len (ops.foldl rbStep (create junk len)) (ops.foldl (rbRef len) {}) := by
+  suffices H : ∀ (ops : List (RbOp α)) r s, Rep len r s → Rep len (ops.foldl rbStep r) (ops.foldl (rbRef len) s) from
+    H ops _ _ (rep_create junk len)
+  intro ops
+  induction ops with
+  | nil => intro r s h; exact h
+  | cons op ops ih =>
+    intro r s h
+    apply ih
+    cases op with
+    | put x => exact rep_put hlen h x
+    | back => exact rep_back h
+    | clear => exact rep_clear h
+
+/-- **ring buffer = the two-list reference for every history of `put / back / clear`** on a ring of `len ≥ 1`
+cells, wrapped or not: what the iterator loop of `iwrb.c` (`iwrb_iter_init / iwrb_iter_prev`, modelled branch by
+branch) yields, what `iwrb_peek` returns and `iwrb_num_cached` are those of the reference; the cursor never
+leaves the buffer -/
+theorem ring_refines_ref (junk : α) (len : Nat) (hlen : 1 ≤ len) (ops : List (RbOp α)) :
+    let r := ops.foldl rbStep (create junk len)
+    let s := ops.foldl (rbRef len) ({} : RRef α)
+    iterList r = s.iter ∧ peek r = s.peek ∧ numCached r = s.num len ∧ r.pos.natAbs ≤ r.buf.length := by
+  intro r s
+  have h : Rep len r s := ring_rep junk len hlen ops
+  obtain ⟨h1, h2, h3⟩ := rep_obs h
+  have hb := rep_bounds h
+  refine ⟨?_, h2, h3, hb⟩
+  rw [iterList_eq_iterAll r (by rw [h.1]; exact hlen) hb, h1]
+
+/-- `iwrb_peek` returns the element the iterator yields first (the newest one), in every reachable state -
+also on a wrapped ring and after any number of `iwrb_back` calls -/
+theorem ring_peek_newest (junk : α) (len : Nat) (hlen : 1 ≤ len) (ops : List (RbOp α)) :
+    peek (ops.foldl rbStep (create junk len)) = (iterList (ops.foldl rbStep (create junk len))).head? := by
+  obtain ⟨h1, h2, _, _⟩ := ring_refines_ref junk len hlen ops
+  rw [h1, h2]
+  have h := ring_rep junk len hlen ops
+  unfold RRef.peek RRef.iter
+  cases ha : (ops.foldl (rbRef len) ({} : RRef α)).a with
+  | nil =>
+    obtain ⟨_, rest, _, hc⟩ := h
+    cases hw : (ops.foldl (rbRef len) ({} : RRef α)).wrapped with
+    | true => rw [hw, ha] at hc; simp at hc
+    | false => rw [hw] at hc; simp at hc; simp [hc.1]
+  | cons y a' => rfl
+
+/-- what `iwrb_back` does in every reachable state `r`:
+* ring not yet wrapped (`pos < 0`): a true pop - the newest element disappears, `num_cached` drops by one;
+* wrapped ring, cursor beyond cell 1: **nothing is discarded** - the newest element becomes the oldest one the
+  iterator yields (a rotation), `num_cached` stays `len`;
+* wrapped ring, cursor at cell 1: the ring reports empty (`num_cached = 0`, `peek = NULL`, the iterator yields
+  nothing) although all `len` cells still hold values. -/
+theorem ring_back_spec (junk : α) (len : Nat) (hlen : 1 ≤ len) (ops : List (RbOp α)) :
+    let r := ops.foldl rbStep (create junk len)
+    (r.pos < 0 → iterList (back r) = (iterList r).tail ∧ numCached (back r) + 1 = numCached r) ∧
+    (r.pos > 1 → iterList (back r) = (iterList r).tail ++ (iterList r).head?.toList ∧
+        numCached (back r) = len ∧ numCached r = len) ∧
+    (r.pos = 1 → iterList (back r) = [] ∧ numCached (back r) = 0 ∧ peek (back r) = none ∧ numCached r = len) := by
+  intro r
+  obtain ⟨h1, _, h3, _⟩ := ring_refines_ref junk len hlen ops
+  obtain ⟨g1, g2, g3, _⟩ := ring_refines_ref junk len hlen (ops ++ [.back])
+  simp only [List.foldl_append, List.foldl_cons, List.foldl_nil, rbStep, rbRef] at g1 g2 g3
+  have h := ring_rep junk len hlen ops
+  change iterList r = _ at h1
+  change numCached r = _ at h3
+  change iterList (back r) = _ at g1
+  change peek (back r) = _ at g2
+  change numCached (back r) = _ at g3
+  change Rep len r _ at h
+  generalize ops.foldl (rbRef len) ({} : RRef α) = s at h1 h3 g1 g2 g3 h
+  obtain ⟨_, rest, _, hc⟩ := h
+  rw [h1, h3, g1, g3, g2]
+  cases hw : s.wrapped with
+  | false =>
+    rw [hw] at hc
+    simp only [Bool.false_eq_true, if_false] at hc
+    obtain ⟨hb, hpos⟩ := hc
+    have e : s.back = { s with a := s.a.tail } := by unfold RRef.back; rw [hw]
+    refine ⟨fun hneg => ?_, fun hgt => by omega, fun h1 => by omega⟩
+    rw [e]
+    cases ha : s.a with
+    | nil => rw [ha] at hpos; simp at hpos; omega
+    | cons y a' => simp [RRef.iter, RRef.num, hw, ha, hb]
+  | true =>
+    rw [hw] at hc
+    simp only [if_true] at hc
+    obtain ⟨hrest, hpos, hge⟩ := hc
+    refine ⟨fun hneg => by omega, fun hgt => ?_, fun h1 => ?_⟩
+    · cases ha : s.a with
+      | nil => rw [ha] at hge; simp at hge
+      | cons y a' =>
+        cases ha' : a' with
+        | nil => rw [ha, ha'] at hpos; simp at hpos; omega
+        | cons z a'' =>
+          have e : s.back = { a := a', b := s.b ++ [y], wrapped := true } := by
+            unfold RRef.back; rw [hw, ha, ha']
+          rw [e]
+          simp [RRef.iter, RRef.num, hw, ha, ha']
+    · cases ha : s.a with
+      | nil => rw [ha] at hge; simp at hge
+      | cons y a' =>
+        cases ha' : a' with
+        | nil =>
+          have e : s.back = {} := by unfold RRef.back; rw [hw, ha, ha']
+          rw [e]
+          simp [RRef.iter, RRef.num, RRef.peek, hw]
+        | cons z a'' => rw [ha, ha'] at hpos; simp at hpos; omega
+
+/-- the wrapped-ring behaviour of `iwrb_back` really occurs: after four puts into three cells, `back` rotates -/
+example : iterList (back ([1, 2, 3, 4, 5].foldl put (create 0 3))) = [4, 3, 5] := by decide
+
 end RING
 
 /-! ## Growable string and memory pool (`iwxstr.c`, `iwpool.c`) -/
@@ -479,6 +663,224 @@ theorem xstr_refines_bytes (x : XStr) (h : x.data.length < x.asize) (op : XsOp) 
         rw [e.1, e.2, if_pos (by omega)]; exact ⟨rfl, by simp; omega⟩
   | clear => exact ⟨rfl, by simp [xsStep, clear]; omega⟩
 
+/-! ### the statement-level model (`Model/XStrMem.lean`): buffer cells, `memmove`, terminator stores, `vsnprintf` -/
+
+/-- calls on the memory-level state; `printf out` / `iprintf pos out` are `iwxstr_printf` /
+`iwxstr_insert_printf` with a format that produces the bytes `out` -/
+inductive XmOp where
+  | cat (b : Bytes) | unshift (b : Bytes) | shift (n : Nat) | pop (n : Nat) | insert (pos : Nat) (b : Bytes) | clear
+  | printf (out : Bytes) | iprintf (pos : Nat) (out : Bytes)
+
+/-- the C functions, statement by statement; `none` = a memory access outside a buffer -/
+def xmStep (junk : Nat) (x : XMem) : XmOp → Option XMem
+  | .cat b => mcat junk x b b.length
+  | .unshift b => munshift junk x b b.length
+  | .shift n => mshift x n
+  | .pop n => mpop x n
+  | .insert p b => (minsert junk x p b b.length).map (·.1)
+  | .clear => mclear x
+  | .printf out => mprintf junk x out
+  | .iprintf p out => (minsertPrintf junk x p out).map (·.1)
+
+/-- the same calls on the abstract string (a print is the edit with the complete formatted output) -/
+def xmAbs : XmOp → XsOp
+  | .cat b => .cat b
+  | .unshift b => .unshift b
+  | .shift n => .shift n
+  | .pop n => .pop n
+  | .insert p b => .insert p b
+  | .clear => .clear
+  | .printf out => .cat out
+  | .iprintf p out => .insert p out
+
+theorem xabs_len (x : XMem) (inv : x.Inv) : x.abs.data.length = x.size := XMem.data_length x inv
+
+/-- **every `iwxstr` editing function, statement by statement, is memory safe and computes the abstract edit**:
+from a state with `size < asize` no `memcpy / memmove / ptr[i] = 0` leaves the heap buffer and no read leaves the
+source buffer; afterwards data, `asize` (growth: double or jump) and the terminator flag are those of the
+abstract model (and `size < asize` again).  Corner cases covered: counts larger than the size in `shift`/`pop`
+(clamped), `shift` of everything (no move), zero counts (nothing stored), `insert` at `pos = size` and beyond
+(error, nothing changed), empty insert, `unshift` into an empty string, the `size - pos + 1` move of `insert`
+that carries the byte after the data along (so a string left unterminated by `iwxstr_set_size` stays so), and
+both print functions for every formatted length. -/
+theorem xstr_mem_refines (junk : Nat) (x : XMem) (inv : x.Inv) (op : XmOp) :
+    ∃ x', xmStep junk x op = some x' ∧ x'.Inv ∧ x'.abs = xsStep x.abs (xmAbs op) := by
+  have hlen := xabs_len x inv
+  have key : ∀ (x' : XMem) (y : XStr), x'.data = y.data → x'.asize = y.asize → x'.term = y.term → y.ud = none →
+      x'.abs = y := by
+    intro x' y h1 h2 h3 h4
+    cases y; simp only [XMem.abs] at *; subst h1 h2 h3 h4; rfl
+  have hcat : ∀ (buf : Bytes) (n : Nat) (hn : n ≤ buf.length),
+      ∃ x', mcat junk x buf n = some x' ∧ x'.Inv ∧ x'.abs = cat x.abs (buf.take n) := by
+    intro buf n hn
+    obtain ⟨x', e, i', d, a, t⟩ := mcat_spec junk x inv buf n hn
+    refine ⟨x', e, i', key _ _ d ?_ t rfl⟩
+    rw [a]; show grow x.asize _ = grow x.asize (x.abs.data.length + (buf.take n).length + 1)
+    rw [hlen]; simp; rw [Nat.min_eq_left hn]
+  have hins : ∀ (p : Nat) (buf : Bytes) (n : Nat) (hn : n ≤ buf.length),
+      ∃ x', (minsert junk x p buf n).map (·.1) = some x' ∧ x'.Inv ∧ x'.abs = (XStr.insert x.abs p (buf.take n)).1 := by
+    intro p buf n hn
+    obtain ⟨x', ok, e, i', _, d, a, t⟩ := minsert_spec junk x inv p buf n hn
+    refine ⟨x', by rw [e]; rfl, i', ?_⟩
+    have hbl : (buf.take n).length = n := by simp; omega
+    unfold XStr.insert
+    rw [hlen]
+    by_cases hp : p > x.size
+    · rw [if_pos hp]
+      rw [if_neg (by omega)] at d a
+      exact key _ _ d a t rfl
+    · rw [if_neg hp]
+      rw [if_pos (by omega)] at d
+      by_cases hb : (buf.take n).isEmpty = true
+      · rw [if_pos hb]
+        have h0 : n = 0 := by
+          have : (buf.take n).length = 0 := by simpa using hb
+          omega
+        rw [if_neg (by omega)] at a
+        refine key _ _ ?_ a t rfl
+        rw [d, h0]; simp; rfl
+      · rw [if_neg hb]
+        have h0 : n ≠ 0 := by
+          intro h0; apply hb; rw [h0]; rfl
+        rw [if_pos ⟨by omega, h0⟩] at a
+        refine key _ _ d ?_ t rfl
+        rw [a, hbl]; rfl
+  cases op with
+  | cat b =>
+    obtain ⟨x', e, i', a⟩ := hcat b b.length (Nat.le_refl _)
+    exact ⟨x', e, i', by rw [a, List.take_length]; rfl⟩
+  | unshift b =>
+    obtain ⟨x', e, i', d, a, t⟩ := munshift_spec junk x inv b b.length (Nat.le_refl _)
+    refine ⟨x', e, i', key _ _ (by rw [d, List.take_length]; rfl) ?_ t rfl⟩
+    rw [a]; show grow x.asize _ = grow x.asize (x.abs.data.length + b.length + 1)
+    rw [hlen]
+  | shift n =>
+    obtain ⟨x', e, i', d, a, t⟩ := mshift_spec x inv n
+    refine ⟨x', e, i', ?_⟩
+    show x'.abs = shift x.abs n
+    unfold shift
+    by_cases h0 : n = 0
+    · rw [if_pos h0]; rw [if_pos h0] at t
+      exact key _ _ (by rw [d, h0]; simp; rfl) a t rfl
+    · rw [if_neg h0]; rw [if_neg h0] at t
+      exact key _ _ d a t rfl
+  | pop n =>
+    obtain ⟨x', e, i', d, a, t⟩ := mpop_spec x inv n
+    refine ⟨x', e, i', ?_⟩
+    show x'.abs = pop x.abs n
+    unfold pop
+    by_cases h0 : n = 0
+    · rw [if_pos h0]; rw [if_pos h0] at t
+      exact key _ _ (by rw [d, h0]; simp; rfl) a t rfl
+    · rw [if_neg h0]; rw [if_neg h0] at t
+      exact key _ _ d a t rfl
+  | insert p b =>
+    obtain ⟨x', e, i', a⟩ := hins p b b.length (Nat.le_refl _)
+    exact ⟨x', e, i', by rw [a, List.take_length]; rfl⟩
+  | clear =>
+    obtain ⟨x', e, i', d, a, t⟩ := mclear_spec x inv
+    exact ⟨x', e, i', key _ _ d a t rfl⟩
+  | printf out =>
+    obtain ⟨s1, s2, s3, _⟩ := printfSource_spec junk out
+    obtain ⟨x', e, i', a⟩ := hcat (printfSource junk out).1 (printfSource junk out).2 (by rw [s1]; exact s2)
+    refine ⟨x', e, i', ?_⟩
+    rw [a, s1, s3]; rfl
+  | iprintf p out =>
+    obtain ⟨s1, s2, s3, _⟩ := printfSource_spec junk out
+    obtain ⟨x', e, i', a⟩ := hins p (printfSource junk out).1 (printfSource junk out).2 (by rw [s1]; exact s2)
+    refine ⟨x', e, i', ?_⟩
+    rw [a, s1, s3]; rfl
+
+def xmRun (junk : Nat) : List XmOp → XMem → Option XMem
+  | [], x => some x
+  | op :: ops, x => (xmStep junk x op).bind (xmRun junk ops)
+
+/-- **`iwxstr` = byte list for every call sequence from `iwxstr_create`**, down to buffer cells: no step
+faults, and the final contents are the reference edits applied in order -/
+theorem xstr_mem_run (junk siz : Nat) (ops : List XmOp) :
+    ∃ x0 x, mcreate junk siz = some x0 ∧ xmRun junk ops x0 = some x ∧ x.Inv ∧
+      x.data = ops.foldl (fun d op => xsRef (xmAbs op) d) [] := by
+  have hpos : 0 < (if siz = 0 then AUNIT else siz) := by
+    split
+    · decide
+    · omega
+  have e0 : mcreate junk siz = some { mem := (List.replicate (if siz = 0 then AUNIT else siz) junk).set 0 0, size := 0 } := by
+    unfold mcreate; rw [Arr.poke_some _ _ _ (by simpa using hpos)]; rfl
+  suffices H : ∀ (ops : List XmOp) (x0 : XMem), x0.Inv → ∃ x, xmRun junk ops x0 = some x ∧ x.Inv ∧
+      x.data = ops.foldl (fun d op => xsRef (xmAbs op) d) x0.data by
+    generalize hx0 : ({ mem := (List.replicate (if siz = 0 then AUNIT else siz) junk).set 0 0, size := 0 } : XMem) = x0 at e0
+    have i0 : x0.Inv := by subst hx0; unfold XMem.Inv; simpa using hpos
+    have d0 : x0.data = [] := by subst hx0; simp [XMem.data]
+    obtain ⟨x, h1, h2, h3⟩ := H ops x0 i0
+    exact ⟨x0, x, e0, h1, h2, by rw [h3, d0]⟩
+  intro ops
+  induction ops with
+  | nil => intro x0 i0; exact ⟨x0, rfl, i0, rfl⟩
+  | cons op ops ih =>
+    intro x0 i0
+    obtain ⟨x1, e1, i1, a1⟩ := xstr_mem_refines junk x0 i0 op
+    obtain ⟨x, e2, i2, d2⟩ := ih x1 i1
+    refine ⟨x, by simp [xmRun, e1, e2], i2, ?_⟩
+    rw [d2]
+    have : x1.data = xsRef (xmAbs op) x0.data := by
+      have h := (xstr_refines_bytes x0.abs (by show x0.data.length < x0.asize; rw [XMem.data_length x0 i0]; exact i0) (xmAbs op)).1
+      rw [← a1] at h; exact h
+    rw [this]; rfl
+
+/-- **`iwxstr_printf` / `iwxstr_insert_printf` at the 1024-byte stack buffer**: for a format producing `out`,
+the string gains exactly `out` (all of it, nothing else, NUL after it) whatever `out.length` is; the stack
+buffer is the source exactly when `out.length ≤ 1023`, otherwise a heap buffer of `out.length + 1` bytes;
+in particular for the three boundary lengths the source buffers have 1024, 1025 and 1026 cells -/
+theorem xstr_printf_exact (junk : Nat) (x : XMem) (inv : x.Inv) (out : Bytes) :
+    (∃ x', mprintf junk x out = some x' ∧ x'.Inv ∧ x'.data = x.data ++ out ∧ x'.size = x.size + out.length ∧
+        x'.term = true) ∧
+    (∀ pos, pos ≤ x.size → ∃ x', minsertPrintf junk x pos out = some (x', true) ∧ x'.Inv ∧
+        x'.data = x.data.take pos ++ out ++ x.data.drop pos ∧ x'.term = x.term) ∧
+    ((printfSource junk out).1.length = (if out.length < 1024 then 1024 else out.length + 1)) ∧
+    (out.length = 1023 → (printfSource junk out).1.length = 1024) ∧
+    (out.length = 1024 → (printfSource junk out).1.length = 1025) ∧
+    (out.length = 1025 → (printfSource junk out).1.length = 1026) := by
+  obtain ⟨s1, s2, s3, s4⟩ := printfSource_spec junk out
+  have hsrc : (printfSource junk out).1.length = (if out.length < 1024 then 1024 else out.length + 1) := by
+    split
+    · rename_i h; exact s4.mpr h
+    · rename_i h
+      unfold printfSource
+      have a := vsnprintf_spec junk PRINTF_BUF out (by decide)
+      have b := vsnprintf_spec junk (out.length + 1) out (by omega)
+      simp only [a.1]
+      rw [if_pos (show out.length ≥ PRINTF_BUF by show out.length ≥ 1024; omega)]
+      exact b.2.1
+  refine ⟨?_, ?_, hsrc, fun h => by rw [hsrc, h]; rfl, fun h => by rw [hsrc, h]; rfl, fun h => by rw [hsrc, h]; rfl⟩
+  · obtain ⟨x', e, i', d, _, t⟩ := mcat_spec junk x inv (printfSource junk out).1 (printfSource junk out).2 (by rw [s1]; exact s2)
+    refine ⟨x', e, i', by rw [d, s1, s3], ?_, t⟩
+    have := XMem.data_length x' i'
+    rw [d, s1, s3, List.length_append, XMem.data_length x inv] at this
+    exact this.symm
+  · intro pos hp
+    obtain ⟨x', ok, e, i', hok, d, _, t⟩ := minsert_spec junk x inv pos (printfSource junk out).1 (printfSource junk out).2 (by rw [s1]; exact s2)
+    have : ok = true := by
+      cases ok with
+      | true => rfl
+      | false => have := hok.mp rfl; omega
+    subst this
+    refine ⟨x', e, i', ?_, t⟩
+    rw [d, if_pos hp, s1, s3]
+
+/-- the constructors at buffer level: `iwxstr_wrap` makes room for the terminator when the caller's buffer is
+exactly full (`size ≥ asize`), `iwxstr_clone` (fixed) copies the data into a buffer of the same size and
+terminates it; both establish `size < asize` -/
+theorem xstr_wrap_clone_spec (junk : Nat) (b : Bytes) (asize : Nat) (x : XMem) (inv : x.Inv) :
+    (∃ y, mwrap junk b asize = some y ∧ y.Inv ∧ y.abs = wrap b asize) ∧
+    (∃ c, mclone junk x = some c ∧ c.Inv ∧ c.abs = clone x.abs) := by
+  obtain ⟨y, e1, i1, d1, a1, t1⟩ := mwrap_spec junk b asize
+  obtain ⟨c, e2, i2, d2, a2, t2⟩ := mclone_spec junk x inv
+  refine ⟨⟨y, e1, i1, ?_⟩, ⟨c, e2, i2, ?_⟩⟩
+  · unfold XMem.abs wrap; rw [d1, a1, t1]
+  · unfold XMem.abs clone; rw [d2, a2, t2]
+
+example : printfBytes (List.replicate 1024 65) = some (List.replicate 1024 65) := printfBytes_eq _
+
 end XSTR
 
 section POOL
@@ -500,6 +902,64 @@ theorem pool_alloc_bump (p : Pool.Pool) (siz : Nat) (h : p.usiz ≤ p.asiz) :
     simp only; omega
   · rename_i hc
     exact ⟨by simp only; omega, rfl, Or.inl ⟨rfl, rfl⟩⟩
+
+/-- **`iwpool_split_string` = the reference split**, for every string, separator set and trimming flag: the
+index scan with its end-of-string special case (`*(ep + 1) == 0`), modelled branch by branch, returns
+`List.splitOnP` at the separator characters, without the empty piece that follows a trailing separator (and
+without the single empty piece of an empty string), every piece trimmed by the two pointer loops when
+`ignore_whitespace` is set.  `iwpool_printf_split` splits the complete formatted output the same way.
+Assumption: the string holds no NUL byte (it is a C string). -/
+theorem pool_split_reference (hay chars : Bytes) (ws : Bool) :
+    splitTokens hay chars ws = refSplit hay chars ws ∧ printfSplit hay chars ws = refSplit hay chars ws := by
+  refine ⟨splitTokens_eq_ref hay chars ws, ?_⟩
+  unfold printfSplit printfAlloc
+  simp only [Nat.add_sub_cancel, List.take_length]
+  exact splitTokens_eq_ref hay chars ws
+
+/-- the trimming rule of `iwpool_split_string` (fixed code): a token loses exactly its leading and trailing
+white space (`iwchars_is_space`: blank, `\t \n \v \f \r`) - `t = l ++ trimmed ++ r` with `l`, `r` all white space
+and `trimmed` neither starting nor ending with white space; the two pointer loops never leave `[sp, ep)` -/
+theorem pool_trim_rule (hay : Bytes) (sp ep : Nat) (h1 : sp ≤ ep) (h2 : ep ≤ hay.length) :
+    token hay true sp ep = trimTok (slice hay sp ep) ∧ token hay false sp ep = slice hay sp ep ∧
+    (∃ l r, slice hay sp ep = l ++ trimTok (slice hay sp ep) ++ r ∧ (∀ c ∈ l, isSpace c = true) ∧ (∀ c ∈ r, isSpace c = true) ∧
+      (∀ c, (trimTok (slice hay sp ep)).head? = some c → isSpace c = false) ∧
+      (∀ c, (trimTok (slice hay sp ep)).getLast? = some c → isSpace c = false)) ∧
+    sp ≤ trimL hay ep (ep - sp) sp ∧ trimL hay ep (ep - sp) sp ≤ trimR hay (trimL hay ep (ep - sp) sp) (ep - trimL hay ep (ep - sp) sp) ep ∧
+    trimR hay (trimL hay ep (ep - sp) sp) (ep - trimL hay ep (ep - sp) sp) ep ≤ ep := by
+  obtain ⟨a, b, _⟩ := trimL_spec hay ep h2 (ep - sp) sp (Nat.le_refl _) h1
+  obtain ⟨c, d, _⟩ := trimR_spec hay (trimL hay ep (ep - sp) sp) (ep - trimL hay ep (ep - sp) sp) ep (Nat.le_refl _) b h2
+  exact ⟨by rw [token_eq hay true sp ep h1 h2]; rfl, rfl, trimTok_spec _, a, c, d⟩
+
+/-- `iwpool_printf`: the size estimate (`vsnprintf` into one byte, plus one) is the formatted length plus the
+NUL, and the second `vsnprintf` into the pool block of that size stores the complete output -/
+theorem pool_printf_exact (out : Bytes) : printfAlloc out = (out.length + 1, out) := by
+  unfold printfAlloc; simp
+
+/-- **child pools and user data**: setting user data (on the pool or on an attached child) frees the previous
+one and takes the new one; detaching hands it back; `iwpool_destroy` of a child unlinks that child only and frees
+its user data, its siblings stay attached (fixed `_parent_remove_child`); `iwpool_destroy` of the parent, once the
+last reference is dropped, frees the user data of every child still attached, then its own; while other
+references remain nothing is freed.  `held` = everything a final destroy would free. -/
+theorem pool_children_ownership (s : Pool.Sys) (ok : KidsOk s) (c id : Nat) :
+    (held (Pool.attach s Pool.createEmpty).1 = held s ∧ KidsOk (Pool.attach s Pool.createEmpty).1) ∧
+    (KidsOk (destroyKid s c).1 ∧ (↑(destroyKid s c).2 : Multiset Nat) + held (destroyKid s c).1 = held s) ∧
+    (∀ s' f, kidUdSet s c id = some (s', f) → KidsOk s' ∧ (↑f : Multiset Nat) + held s' = held s + ↑[id]) ∧
+    (∀ s' f, Pool.destroy s = (s', some f) → (↑f : Multiset Nat) = held s ∧ s.main.refs ≤ 1) ∧
+    (∀ s', Pool.destroy s = (s', none) → held s' = held s ∧ 1 < s.main.refs) := by
+  refine ⟨⟨?_, kidsOk_attach s _ ok⟩, held_destroyKid s c ok, fun s' f h => held_kidUdSet s c id ok s' f h, ?_, ?_⟩
+  · rw [held_attach]; show _ + (↑([] : List Nat) : Multiset Nat) = _; simp
+  · intro s' f h
+    refine ⟨held_destroy s s' f h, ?_⟩
+    unfold Pool.destroy at h; split at h
+    · simp at h
+    · omega
+  · intro s' h
+    refine ⟨(destroy_unref s s' h).1, ?_⟩
+    unfold Pool.destroy at h; split at h
+    · assumption
+    · simp at h
+
+example : splitTokens [32, 97, 32, 44, 44, 98, 44] [44] true = [[97], [], [98]] := by decide
 end POOL
 
 /-! ## AVL tree (`iwavl.c`): reference = strictly increasing list of keys -/
@@ -579,5 +1039,445 @@ theorem avl_refines_set (ops : List AvlOp) :
 example : toList (avlRun [.ins 3, .ins 1, .ins 2, .rm 3] .nil) = [1, 2] := by decide
 
 end AVL
+
+/-! ## Ownership: every owned element is freed exactly once -/
+section OWNED
+open HMap Arr
+
+variable {κ : Type} [DecidableEq κ] {α : Type}
+
+/-! ### hash map: keys (unless integer keys) and values go to `kv_free_fn` -/
+
+/-- the tokens whose ownership a call passes to the map: the pair of a `put`; the new key of a `rename`, but
+only when the old key exists (otherwise `iwhmap_rename` leaves `key_new` to the caller) -/
+def hmTaken (h : κ → Nat) (m : Map κ) : HmOp κ → List (Tok κ)
+  | .put k v => freeToks m.ownKeys (some k) v
+  | .ren a b => if (locate m a (h a)).isSome then freeToks m.ownKeys (some b) 0 else []
+  | _ => []
+
+/-- the tokens a call hands to `kv_free_fn` -/
+def hmFreed (h : κ → Nat) (m : Map κ) : HmOp κ → List (Tok κ)
+  | .clear => (HMap.clear m).2
+  | op => (hmStep h m op).2.1
+
+/-- ledger of a hash-map history followed by `iwhmap_destroy` -/
+def hmLedger (h : κ → Nat) : List (HmOp κ) → Map κ → Ledger (Tok κ)
+  | [], m => { freed := HMap.destroy m }
+  | op :: ops, m => Ledger.add { taken := hmTaken h m op, freed := hmFreed h m op } (hmLedger h ops (hmStep h m op).1)
+
+theorem hm_step_ledger {h : κ → Nat} {m : Map κ} {s : Ref κ} (r : R h m s) {al : List (κ × Nat)} (a : AL s al)
+    (op : HmOp κ) :
+    (refStep s op).1.own = s.own ∧ ∃ al', AL (refStep s op).1 al' ∧
+      (↑(hmFreed h m op) : Multiset (Tok κ)) + held s.own al' = held s.own al + ↑(hmTaken h m op) := by
+  have hstep := (hmap_step_refines r op).2
+  cases op with
+  | put k v =>
+    obtain ⟨o, al', a1, a2⟩ := a.put k v
+    refine ⟨o, al', a1, ?_⟩
+    have : hmFreed h m (.put k v) = (s.put k v).2 := by
+      show (hmStep h m (.put k v)).2.1 = _
+      rw [hstep]; rfl
+    rw [this, a2]
+    show _ = _ + (↑(freeToks m.ownKeys (some k) v) : Multiset (Tok κ))
+    rw [r.own]; rfl
+  | get k =>
+    have hf : ∀ x, (refStep s (.get k)).1.f x = s.f x := by
+      intro x
+      show (if (s.f k).isSome then s.touchIfOn k else s).f x = s.f x
+      split
+      · rw [(touchIfOn_f s k).1]
+      · rfl
+    have ho : (refStep s (.get k)).1.own = s.own := by
+      show (if (s.f k).isSome then s.touchIfOn k else s).own = s.own
+      split
+      · exact (touchIfOn_f s k).2
+      · rfl
+    refine ⟨ho, al, a.congr hf, ?_⟩
+    have : hmFreed h m (.get k) = [] := rfl
+    rw [this]; show _ = _ + (↑([] : List (Tok κ)) : Multiset (Tok κ)); simp
+  | rm k =>
+    obtain ⟨o, al', a1, a2⟩ := a.remove k
+    refine ⟨o, al', a1, ?_⟩
+    have : hmFreed h m (.rm k) = (s.remove k).2.2 := by
+      show (hmStep h m (.rm k)).2.1 = _
+      rw [hstep]; rfl
+    rw [this, a2]; show _ = _ + (↑([] : List (Tok κ)) : Multiset (Tok κ)); simp
+  | ren x y =>
+    obtain ⟨o, al', a1, a2⟩ := a.rename x y
+    refine ⟨o, al', a1, ?_⟩
+    have : hmFreed h m (.ren x y) = (s.rename x y).2 := by
+      show (hmStep h m (.ren x y)).2.1 = _
+      rw [hstep]; rfl
+    rw [this, a2]
+    show _ = _ + (↑(if (locate m x (h x)).isSome then freeToks m.ownKeys (some y) 0 else []) : Multiset (Tok κ))
+    rw [locate_isSome r, r.own]
+    cases (s.f x).isSome <;> rfl
+  | clear =>
+    refine ⟨rfl, [], ⟨by simp, fun k v => by simp [refStep, Ref.clear]⟩, ?_⟩
+    have : hmFreed h m .clear = allToks m := rfl
+    rw [this, allToks_held r a, held_nil]
+    show _ = _ + (↑([] : List (Tok κ)) : Multiset (Tok κ)); simp
+  | lru n =>
+    refine ⟨rfl, al, a.congr (fun _ => rfl), ?_⟩
+    have : hmFreed h m (.lru n) = [] := rfl
+    rw [this]; show _ = _ + (↑([] : List (Tok κ)) : Multiset (Tok κ)); simp
+
+theorem hm_ledger_held (h : κ → Nat) : ∀ (ops : List (HmOp κ)) (m : Map κ) (s : Ref κ) (al : List (κ × Nat)),
+    R h m s → AL s al →
+    (↑(hmLedger h ops m).freed : Multiset (Tok κ)) = ↑(hmLedger h ops m).taken + held s.own al := by
+  intro ops
+  induction ops with
+  | nil =>
+    intro m s al r a
+    show (↑(HMap.destroy m) : Multiset (Tok κ)) = ↑([] : List (Tok κ)) + held s.own al
+    rw [show HMap.destroy m = allToks m from rfl, allToks_held r a]; simp
+  | cons op ops ih =>
+    intro m s al r a
+    obtain ⟨o, al', a1, a2⟩ := hm_step_ledger r a op
+    have r' := (hmap_step_refines r op).1
+    have := ih _ _ al' r' a1
+    rw [o] at this
+    show (↑(hmFreed h m op ++ (hmLedger h ops (hmStep h m op).1).freed) : Multiset (Tok κ)) =
+      ↑(hmTaken h m op ++ (hmLedger h ops (hmStep h m op).1).taken) + held s.own al
+    rw [← Multiset.coe_add, ← Multiset.coe_add, this]
+    calc (↑(hmFreed h m op) : Multiset (Tok κ)) + (↑(hmLedger h ops (hmStep h m op).1).taken + held s.own al')
+        = ↑(hmLedger h ops (hmStep h m op).1).taken + (↑(hmFreed h m op) + held s.own al') := by abel
+      _ = ↑(hmLedger h ops (hmStep h m op).1).taken + (held s.own al + ↑(hmTaken h m op)) := by rw [a2]
+      _ = _ := by abel
+
+/-- hash map: over any history from `iwhmap_create…` to `iwhmap_destroy`, for any hash function, with or
+without LRU eviction: the tokens given to `kv_free_fn` (replaced pairs, removed pairs, renamed-over keys,
+eviction victims, `clear`, `destroy`) are exactly the tokens taken over -/
+theorem hmap_freed_exactly_once (h : κ → Nat) (own : Bool) (ops : List (HmOp κ)) :
+    (hmLedger h ops (HMap.empty own)).Balanced := by
+  have := hm_ledger_held h ops (HMap.empty own) (Ref.empty own) [] (sim_empty h own)
+    ⟨by simp, fun k v => by simp [Ref.empty]⟩
+  unfold Ledger.Balanced
+  rw [this, held_nil]
+  have hb : ∀ (ops : List (HmOp κ)) (m : Map κ), (hmLedger h ops m).back = [] := by
+    intro ops
+    induction ops with
+    | nil => intro m; rfl
+    | cons op ops ih => intro m; show [] ++ (hmLedger h ops _).back = []; rw [ih]; rfl
+  rw [hb]; simp
+
+/-! ### `iwlist`: items are heap copies owned by the list -/
+
+/-- one `iwlist` call with its ledger: inserted items are taken over; `set` releases the replaced item;
+`pop / shift / remove` hand the item to the caller -/
+def plLedgerStep (junk : α) (l : PList α) : PlOp α → Option (PList α × Ledger α)
+  | .push x => (l.push junk x).map fun l' => (l', { taken := [x] })
+  | .unshift x => (l.unshift junk x).map fun l' => (l', { taken := [x] })
+  | .insert i x => (l.insert junk i x).map fun r => (r.1, { taken := if r.2 then [x] else [] })
+  | .set i x => (l.set i x).map fun r => (r.1, if r.2 then { taken := [x], freed := itemL (l.get i) } else {})
+  | .pop => some (l.pop.1, { back := itemL l.pop.2 })
+  | .shift => l.shift.map fun r => (r.1, { back := itemL r.2 })
+  | .remove i => (l.remove i).map fun r => (r.1, { back := itemL r.2 })
+
+/-- ledger of an `iwlist` history followed by `iwlist_destroy` (which frees the items of the live window);
+`none` = some call left its allocation -/
+def plLedger (junk : α) : List (PlOp α) → PList α → Option (Ledger α)
+  | [], l => some { freed := l.window }
+  | op :: ops, l => (plLedgerStep junk l op).bind fun r => (plLedger junk ops r.1).map (Ledger.add r.2)
+
+theorem pl_get_window (l : PList α) (i : Nat) (hi : i < l.num) : l.get i = some l.window[i]? := by
+  unfold PList.get; rw [if_neg (by omega), PList.window_get, if_pos hi]
+
+theorem pl_step_ledger (junk : α) (l : PList α) (wf : l.Wf) (op : PlOp α) :
+    ∃ l' L, plLedgerStep junk l op = some (l', L) ∧ l'.Wf ∧
+      (↑L.freed : Multiset α) + ↑L.back + ↑l'.window = ↑l.window + ↑L.taken := by
+  have hl := PList.window_length l wf
+  cases op with
+  | push x =>
+    obtain ⟨l', e, w, hw⟩ := PList.push_spec junk l wf x
+    refine ⟨l', { taken := [x] }, by simp [plLedgerStep, e], w, ?_⟩
+    show (↑([] : List α) : Multiset α) + ↑([] : List α) + ↑l'.window = ↑l.window + ↑[x]
+    rw [hw, ← Multiset.coe_add]; ms_norm
+  | unshift x =>
+    obtain ⟨l', e, w, hw⟩ := PList.unshift_spec junk l wf x
+    refine ⟨l', { taken := [x] }, by simp [plLedgerStep, e], w, ?_⟩
+    show (↑([] : List α) : Multiset α) + ↑([] : List α) + ↑l'.window = ↑l.window + ↑[x]
+    rw [hw, ms_cons]; ms_norm
+  | insert i x =>
+    obtain ⟨l', ok, e, w, hok, hw⟩ := PList.insert_spec junk l wf i x
+    refine ⟨l', { taken := if ok then [x] else [] }, by simp [plLedgerStep, e], w, ?_⟩
+    show (↑([] : List α) : Multiset α) + ↑([] : List α) + ↑l'.window = ↑l.window + ↑(if ok = true then [x] else [])
+    rw [hw]
+    by_cases hi : i ≤ l.window.length
+    · have : ok = true := hok.mpr hi
+      rw [if_pos hi, this, if_pos rfl, ms_insert]; ms_norm
+    · have : ok = false := by cases ok with | true => exact absurd (hok.mp rfl) hi | false => rfl
+      rw [if_neg hi, this, if_neg (by simp)]; ms_norm
+  | set i x =>
+    obtain ⟨l', ok, e, w, hok, hw⟩ := PList.set_spec l wf i x
+    refine ⟨l', if ok then { taken := [x], freed := itemL (l.get i) } else {}, by simp [plLedgerStep, e], w, ?_⟩
+    rw [hw]
+    by_cases hi : i < l.window.length
+    · have : ok = true := hok.mpr hi
+      rw [if_pos hi, this, if_pos rfl, pl_get_window l i (by omega), itemL_get _ _ hi]
+      show (↑[l.window[i]] : Multiset α) + ↑([] : List α) + ↑(l.window.set i x) = ↑l.window + ↑[x]
+      rw [← ms_set l.window i x hi]; ms_norm; abel
+    · have : ok = false := by cases ok with | true => exact absurd (hok.mp rfl) hi | false => rfl
+      rw [if_neg hi, this, if_neg (by simp)]
+      show (↑([] : List α) : Multiset α) + ↑([] : List α) + ↑l.window = ↑l.window + ↑([] : List α)
+      ms_norm
+  | pop =>
+    obtain ⟨w, hw, hr⟩ := PList.pop_spec l wf
+    refine ⟨l.pop.1, { back := itemL l.pop.2 }, rfl, w, ?_⟩
+    show (↑([] : List α) : Multiset α) + ↑(itemL l.pop.2) + ↑l.pop.1.window = ↑l.window + ↑([] : List α)
+    rw [hw, hr]
+    by_cases hn : l.num = 0
+    · rw [if_pos hn]
+      have : l.window = [] := List.eq_nil_of_length_eq_zero (by omega)
+      rw [this, List.take_nil]; rfl
+    · rw [if_neg hn, itemL_get _ _ (by omega)]
+      conv => rhs; rw [ms_pop l.window l.num hl (by omega)]
+      ms_norm; abel
+  | shift =>
+    obtain ⟨l', r, e, w, hw, hr⟩ := PList.shift_spec l wf
+    refine ⟨l', { back := itemL r }, by simp [plLedgerStep, e], w, ?_⟩
+    show (↑([] : List α) : Multiset α) + ↑(itemL r) + ↑l'.window = ↑l.window + ↑([] : List α)
+    rw [hw, hr]
+    by_cases hn : l.num = 0
+    · rw [if_pos hn]
+      have : l.window = [] := List.eq_nil_of_length_eq_zero (by omega)
+      rw [this]; rfl
+    · rw [if_neg hn]
+      have hp : 0 < l.window.length := by omega
+      rw [itemL_get _ _ hp]
+      conv => rhs; rw [ms_shift l.window hp]
+      ms_norm; abel
+  | remove i =>
+    obtain ⟨l', r, e, w, hr, hw⟩ := PList.remove_spec l wf i
+    refine ⟨l', { back := itemL r }, by simp [plLedgerStep, e], w, ?_⟩
+    show (↑([] : List α) : Multiset α) + ↑(itemL r) + ↑l'.window = ↑l.window + ↑([] : List α)
+    rw [hw, hr]
+    by_cases hi : i < l.window.length
+    · rw [if_pos hi, if_pos hi, itemL_get _ _ hi]
+      conv => rhs; rw [ms_remove l.window i hi]
+      ms_norm; abel
+    · rw [if_neg hi, if_neg hi]
+      show (↑([] : List α) : Multiset α) + ↑([] : List α) + ↑l.window = ↑l.window + ↑([] : List α)
+      ms_norm
+
+theorem pl_ledger_held (junk : α) : ∀ (ops : List (PlOp α)) (l : PList α), l.Wf →
+    ∃ L, plLedger junk ops l = some L ∧ (↑L.freed : Multiset α) + ↑L.back = ↑L.taken + ↑l.window := by
+  intro ops
+  induction ops with
+  | nil => intro l _; exact ⟨_, rfl, by simp⟩
+  | cons op ops ih =>
+    intro l wf
+    obtain ⟨l', L1, e, w, b⟩ := pl_step_ledger junk l wf op
+    obtain ⟨L2, e2, b2⟩ := ih l' w
+    exact ⟨L1.add L2, by simp [plLedger, e, e2], Ledger.add_balance L1 L2 _ _ b b2⟩
+
+/-- `iwlist`: over any history from `iwlist_create` to `iwlist_destroy` no call faults, and the items freed
+(replaced by `set`, or still in the window at destroy) plus the items handed to the caller by
+`pop / shift / remove` are exactly the items inserted -/
+theorem plist_freed_exactly_once (junk : α) (anum : Nat) (ops : List (PlOp α)) :
+    ∃ L, plLedger junk ops (PList.create junk anum) = some L ∧ L.Balanced := by
+  have h0 : (PList.create junk anum).Wf := by
+    unfold PList.create PList.Wf; simp; split <;> omega
+  obtain ⟨L, e, b⟩ := pl_ledger_held junk ops _ h0
+  refine ⟨L, e, ?_⟩
+  unfold Ledger.Balanced
+  rw [b]
+  have : (PList.create junk anum).window = [] := by unfold PList.create PList.window; simp
+  rw [this]; simp
+
+/-! ### user data of `iwxstr` -/
+
+/-- calls that move ownership of the user data of an `iwxstr` -/
+inductive UdOp where
+  | set (id : Nat) | detach
+
+/-- ledger of an `iwxstr` user-data history followed by `iwxstr_destroy` / `iwxstr_destroy_keep_ptr` -/
+def xsLedger : List UdOp → XStr.XStr → Ledger Nat
+  | [], x => { freed := XStr.destroy x }
+  | .set id :: ops, x => Ledger.add { taken := [id], freed := (XStr.udSet x id).2 } (xsLedger ops (XStr.udSet x id).1)
+  | .detach :: ops, x => Ledger.add { back := x.ud.toList } (xsLedger ops (XStr.udDetach x).1)
+
+theorem xs_ledger_held : ∀ (ops : List UdOp) (x : XStr.XStr),
+    (↑(xsLedger ops x).freed : Multiset Nat) + ↑(xsLedger ops x).back = ↑(xsLedger ops x).taken + ↑x.ud.toList := by
+  intro ops
+  induction ops with
+  | nil =>
+    intro x
+    show (↑x.ud.toList : Multiset Nat) + ↑([] : List Nat) = ↑([] : List Nat) + ↑x.ud.toList
+    ms_norm
+  | cons op ops ih =>
+    intro x
+    cases op with
+    | set id =>
+      refine Ledger.add_balance { taken := [id], freed := (XStr.udSet x id).2 } _ _ _ ?_ (ih (XStr.udSet x id).1)
+      show (↑x.ud.toList : Multiset Nat) + ↑([] : List Nat) + ↑[id] = ↑x.ud.toList + ↑[id]
+      ms_norm
+    | detach =>
+      refine Ledger.add_balance { back := x.ud.toList } _ _ _ ?_ (ih (XStr.udDetach x).1)
+      show (↑([] : List Nat) : Multiset Nat) + ↑x.ud.toList + ↑([] : List Nat) = ↑x.ud.toList + ↑([] : List Nat)
+      ms_norm
+
+/-! ### `iwpool`: user data of the pool and of attached child pools -/
+
+/-- calls that move ownership around a pool: user data of the pool, child pools with their own user data,
+destroying a child early, extra references; `destroy` is `iwpool_destroy` on the parent -/
+inductive PoOp where
+  | ud (id : Nat) | detach | child (c : Pool.Pool) | cud (c id : Nat) | cdestroy (c : Nat) | ref | destroy
+
+/-- ledger of a pool history; it ends (`some`) with the `iwpool_destroy` that drops the last reference, which
+must be the last call; every earlier `destroy` only drops a reference -/
+def poLedger : List PoOp → Pool.Sys → Option (Ledger Nat)
+  | [], _ => none
+  | .ud id :: ops, s =>
+    (poLedger ops { s with main := (Pool.udSet s.main id).1 }).map (Ledger.add { taken := [id], freed := (Pool.udSet s.main id).2 })
+  | .detach :: ops, s =>
+    (poLedger ops { s with main := (Pool.udDetach s.main).1 }).map (Ledger.add { back := (Pool.udDetach s.main).2 })
+  | .child c :: ops, s => poLedger ops (Pool.attach s { c with ud := none }).1
+  | .cud c id :: ops, s =>
+    match Pool.kidUdSet s c id with
+    | none => poLedger ops s
+    | some (s', f) => (poLedger ops s').map (Ledger.add { taken := [id], freed := f })
+  | .cdestroy c :: ops, s => (poLedger ops (Pool.destroyKid s c).1).map (Ledger.add { freed := (Pool.destroyKid s c).2 })
+  | .ref :: ops, s => poLedger ops (Pool.ref s)
+  | .destroy :: ops, s =>
+    match Pool.destroy s with
+    | (s', none) => poLedger ops s'
+    | (_, some f) => match ops with
+      | [] => some { freed := f }
+      | _ => none
+
+theorem po_ledger_held : ∀ (ops : List PoOp) (s : Pool.Sys) (L : Ledger Nat), Pool.KidsOk s → poLedger ops s = some L →
+    (↑L.freed : Multiset Nat) + ↑L.back = ↑L.taken + Pool.held s := by
+  intro ops
+  induction ops with
+  | nil => intro s L _ h; simp [poLedger] at h
+  | cons op ops ih =>
+    intro s L ok h
+    cases op with
+    | ud id =>
+      simp only [poLedger, Option.map_eq_some_iff] at h
+      obtain ⟨L2, e2, rfl⟩ := h
+      have b2 := ih _ L2 (show Pool.KidsOk { s with main := (Pool.udSet s.main id).1 } from ok) e2
+      refine Ledger.add_balance _ L2 _ _ ?_ b2
+      show (↑s.main.ud.toList : Multiset Nat) + ↑([] : List Nat) + (Pool.heldK s.kids + ↑[id]) = Pool.heldK s.kids + ↑s.main.ud.toList + ↑[id]
+      ms_norm; abel
+    | detach =>
+      simp only [poLedger, Option.map_eq_some_iff] at h
+      obtain ⟨L2, e2, rfl⟩ := h
+      have b2 := ih _ L2 (show Pool.KidsOk { s with main := (Pool.udDetach s.main).1 } from ok) e2
+      refine Ledger.add_balance _ L2 _ _ ?_ b2
+      show (↑([] : List Nat) : Multiset Nat) + ↑s.main.ud.toList + (Pool.heldK s.kids + ↑([] : List Nat)) = Pool.heldK s.kids + ↑s.main.ud.toList + ↑([] : List Nat)
+      ms_norm; abel
+    | child c =>
+      simp only [poLedger] at h
+      have b2 := ih _ L (Pool.kidsOk_attach s _ ok) h
+      rw [b2, Pool.held_attach]
+      show _ + (Pool.held s + ↑([] : List Nat)) = _
+      ms_norm
+    | cud c id =>
+      simp only [poLedger] at h
+      cases hk : Pool.kidUdSet s c id with
+      | none => rw [hk] at h; exact ih s L ok h
+      | some p =>
+        obtain ⟨s', f⟩ := p
+        rw [hk] at h
+        simp only [Option.map_eq_some_iff] at h
+        obtain ⟨L2, e2, rfl⟩ := h
+        obtain ⟨ok', hb⟩ := Pool.held_kidUdSet s c id ok s' f hk
+        refine Ledger.add_balance _ L2 _ _ ?_ (ih s' L2 ok' e2)
+        show (↑f : Multiset Nat) + ↑([] : List Nat) + Pool.held s' = Pool.held s + ↑[id]
+        rw [← hb]; ms_norm
+    | cdestroy c =>
+      simp only [poLedger, Option.map_eq_some_iff] at h
+      obtain ⟨L2, e2, rfl⟩ := h
+      obtain ⟨ok', hb⟩ := Pool.held_destroyKid s c ok
+      refine Ledger.add_balance _ L2 _ _ ?_ (ih _ L2 ok' e2)
+      show (↑(Pool.destroyKid s c).2 : Multiset Nat) + ↑([] : List Nat) + Pool.held (Pool.destroyKid s c).1 = Pool.held s + ↑([] : List Nat)
+      rw [← hb]; ms_norm
+    | ref =>
+      simp only [poLedger] at h
+      exact ih (Pool.ref s) L (show Pool.KidsOk (Pool.ref s) from ok) h
+    | destroy =>
+      simp only [poLedger] at h
+      cases hd : Pool.destroy s with
+      | mk s' r =>
+        rw [hd] at h
+        cases r with
+        | none =>
+          obtain ⟨e, okf⟩ := Pool.destroy_unref s s' hd
+          rw [← e]; exact ih s' L (okf ok) h
+        | some f =>
+          cases ops with
+          | nil =>
+            simp only [Option.some.injEq] at h
+            rw [← h]
+            show (↑f : Multiset Nat) + ↑([] : List Nat) = ↑([] : List Nat) + Pool.held s
+            rw [Pool.held_destroy s s' f hd]; ms_norm
+          | cons _ _ => simp at h
+
+/-! ### the global statement -/
+
+/-- an owned element of any container: a hash-map key or value token, an `iwlist` item, a user-data object -/
+inductive Elem (κ α : Type) where
+  | hm (t : Tok κ) | item (x : α) | ud (id : Nat)
+  deriving DecidableEq
+
+/-- a call history on one owning container, from its creation to its destruction (the final destroy is
+implicit except for the pool, whose reference count decides which `destroy` is the last one) -/
+inductive History (κ α : Type) where
+  | hmap (h : κ → Nat) (ownKeys : Bool) (ops : List (HmOp κ))
+  | plist (junk : α) (anum : Nat) (ops : List (PlOp α))
+  | xstr (siz : Nat) (ops : List UdOp)
+  | pool (siz : Nat) (ops : List PoOp)
+
+/-- what the mechanism models hand to the free callbacks / take over / hand back along a history -/
+def ledger : History κ α → Option (Ledger (Elem κ α))
+  | .hmap h own ops => some ((hmLedger h ops (HMap.empty own)).map .hm)
+  | .plist junk anum ops => (plLedger junk ops (PList.create junk anum)).map (Ledger.map .item)
+  | .xstr siz ops => some ((xsLedger ops (XStr.create siz)).map .ud)
+  | .pool siz ops => (poLedger ops { main := Pool.create siz }).map (Ledger.map .ud)
+
+/-- **freed exactly once**: over any call history on any owning container that ends in destroy - hash map with
+any hash function, key ownership mode and LRU bound; `iwlist`; user data of `iwxstr`; `iwpool` with user data,
+attached child pools (each with user data, possibly destroyed early) and extra references - the multiset of
+elements handed to the free callbacks equals the multiset of owned elements inserted and not handed back to the
+caller.  Nothing leaks (every taken element is freed or returned) and nothing is freed twice (multiplicities
+agree). -/
+theorem freed_exactly_once [DecidableEq α] (H : History κ α) (L : Ledger (Elem κ α)) (hL : ledger H = some L) :
+    (L.freed : Multiset (Elem κ α)) = (L.taken : Multiset (Elem κ α)) - (L.back : Multiset (Elem κ α)) ∧
+    (L.freed : Multiset (Elem κ α)) + (L.back : Multiset (Elem κ α)) = (L.taken : Multiset (Elem κ α)) := by
+  have hb : L.Balanced := by
+    cases H with
+    | hmap h own ops =>
+      simp only [ledger, Option.some.injEq] at hL
+      rw [← hL]; exact (hmap_freed_exactly_once h own ops).map _
+    | plist junk anum ops =>
+      obtain ⟨L0, e, b⟩ := plist_freed_exactly_once junk anum ops
+      simp only [ledger, e, Option.map_some, Option.some.injEq] at hL
+      rw [← hL]; exact b.map _
+    | xstr siz ops =>
+      simp only [ledger, Option.some.injEq] at hL
+      rw [← hL]
+      refine Ledger.Balanced.map _ ?_
+      unfold Ledger.Balanced
+      rw [xs_ledger_held ops (XStr.create siz)]
+      show _ + (↑([] : List Nat) : Multiset Nat) = _; simp
+    | pool siz ops =>
+      simp only [ledger, Option.map_eq_some_iff] at hL
+      obtain ⟨L0, e, rfl⟩ := hL
+      refine Ledger.Balanced.map _ ?_
+      unfold Ledger.Balanced
+      rw [po_ledger_held ops _ L0 ⟨by simp, fun p hp => by simp at hp⟩ e]
+      show _ + (Pool.heldK [] + (↑([] : List Nat) : Multiset Nat)) = _
+      simp [Pool.heldK]
+  unfold Ledger.Balanced at hb
+  exact ⟨by rw [← hb]; exact Multiset.add_sub_cancel_right.symm, hb⟩
+
+/-- the hypotheses are satisfiable and the ledger is not vacuous: a pool with a child, user data set twice on
+the child, one reference taken and dropped -/
+example : poLedger [.child Pool.createEmpty, .cud 0 7, .cud 0 8, .ud 9, .ref, .destroy, .destroy] { main := Pool.create 0 }
+    = some { taken := [7, 8, 9], freed := [7, 8, 9], back := [] } := by rfl
+
+end OWNED
 
 end IwModel.C18
